@@ -399,6 +399,15 @@ func runC12(c *sim.Ctx) *sim.Violation {
 	peek := t.Bool(1, 3)
 	p := drv.New(typ)
 	model := initialModel(typ)
+	if typ == ref.Publish && t.Bool(1, 3) {
+		// the history starts from the convenience constructor
+		q := byte(t.Int(3))
+		topic, payload := g.Str(g.Len1()), g.Str(g.Len())
+		p = mq.Pub(q, string(topic), string(payload))
+		model.Flags = q << 1
+		model.Topic, model.Payload = topic, payload
+		c.Count("probe.history-starts-from-mq.Pub")
+	}
 	if name0, wv, gv := ref.FirstDiff(model.Canon(), drv.Observe(p).Canon()); name0 != "" {
 		return sim.V("C12/"+name+"/constructor/"+name0, "fresh packet: accessor %s want %q got %q", name0, wv, gv)
 	}
